@@ -99,6 +99,8 @@ func checkC04(w *World, r *Report) {
 				nComment++
 				// no node appended, no parser function called
 				bad := ""
+				scans := false
+				var inertHelpers []*ast.FuncDecl
 				for _, st := range cc.Body {
 					ast.Inspect(st, func(m ast.Node) bool {
 						c, ok := m.(*ast.CallExpr)
@@ -110,7 +112,12 @@ func checkC04(w *World, r *Report) {
 						}
 						if f := w.callee(c); f != nil && f.Pkg() != nil && f.Pkg().Path() == twigPath {
 							if d := w.decls[f]; d != nil && w.parserSide(d) {
-								bad = "the comment arm calls the parser function " + f.Name()
+								// a helper that only moves the cursor is as inert as the inlined loop
+								if why := w.inertParserHelper(d, map[*ast.FuncDecl]bool{}); why != "" {
+									bad = "the comment arm calls the parser function " + f.Name() + " (" + why + ")"
+								} else {
+									inertHelpers = append(inertHelpers, d)
+								}
 							}
 						}
 						return true
@@ -118,14 +125,19 @@ func checkC04(w *World, r *Report) {
 				}
 				// the cursor must be moved by scanning for the comment end, not by a fixed stride
 				// (the tokenizer emits no body token for an empty comment)
-				scans := false
-				for _, st := range cc.Body {
-					ast.Inspect(st, func(m ast.Node) bool {
+				scanIn := func(body ast.Node) {
+					ast.Inspect(body, func(m ast.Node) bool {
 						if fs, ok := m.(*ast.ForStmt); ok && fs.Cond != nil && mentionsConst(w, fs.Cond, "TOKEN_COMMENT_END") {
 							scans = true
 						}
 						return true
 					})
+				}
+				for _, st := range cc.Body {
+					scanIn(st)
+				}
+				for _, d := range inertHelpers {
+					scanIn(d.Body)
 				}
 				if bad == "" && !scans {
 					bad = "the comment arm does not scan for TOKEN_COMMENT_END (fixed stride): an empty comment has no body token, so the token after it is swallowed"
@@ -440,4 +452,58 @@ func checkVerbatim(w *World, r *Report, tokenT types.Type, textKind types.Object
 	} else {
 		r.bad("R04.5", fname, construct, w.pos(fd), fmt.Sprintf("the body of a verbatim block is re-printed from expression tokens and string constants (%d of %d writes: %s): spacing, quotes and escapes inside {{ }} / {%% %%} / {# #} are lost or altered, so the output is not the source text", len(badWrites), nWrites, strings.Join(badWrites, "; ")))
 	}
+}
+
+// inertParserHelper: "" if the parser-side function only moves the cursor: it returns no node,
+// appends nothing, constructs no node and calls only parser functions that are inert themselves;
+// otherwise what it does.
+func (w *World) inertParserHelper(fd *ast.FuncDecl, seen map[*ast.FuncDecl]bool) string {
+	if seen[fd] {
+		return ""
+	}
+	seen[fd] = true
+	nodeI, _ := w.named("Node").Underlying().(*types.Interface)
+	returnsNode := func(t types.Type) bool {
+		if t == nil || nodeI == nil {
+			return false
+		}
+		if sl, ok := t.Underlying().(*types.Slice); ok {
+			t = sl.Elem()
+		}
+		return types.Implements(t, nodeI) || types.Implements(types.NewPointer(t), nodeI)
+	}
+	obj, _ := w.Info.Defs[fd.Name].(*types.Func)
+	if obj == nil || fd.Body == nil {
+		return "no body"
+	}
+	res := obj.Type().(*types.Signature).Results()
+	for i := 0; i < res.Len(); i++ {
+		if returnsNode(res.At(i).Type()) {
+			return "it returns a node"
+		}
+	}
+	why := ""
+	ast.Inspect(fd.Body, func(m ast.Node) bool {
+		c, ok := m.(*ast.CallExpr)
+		if !ok || why != "" {
+			return true
+		}
+		if id, ok := c.Fun.(*ast.Ident); ok && id.Name == "append" {
+			why = "it appends"
+			return true
+		}
+		if tv, ok := w.Info.Types[c]; ok && returnsNode(tv.Type) {
+			why = "it builds a node"
+			return true
+		}
+		if f := w.callee(c); f != nil && f.Pkg() != nil && f.Pkg().Path() == twigPath {
+			if d := w.decls[f]; d != nil && w.parserSide(d) {
+				if sub := w.inertParserHelper(d, seen); sub != "" {
+					why = "it calls " + f.Name() + ": " + sub
+				}
+			}
+		}
+		return true
+	})
+	return why
 }
